@@ -151,7 +151,9 @@ pub fn child(args: &[String]) -> i32 {
         d.insert("E".to_string(), None);
     }
     api::quiet_panics();
-    let r = api::pp_file(Path::new(top), &d, &incs, false, false);
+    // (the flags travel down every include level: the bound must hold under strip_comments too)
+    let strip = std::env::var("C09_STRIP").is_ok();
+    let r = api::pp_file(Path::new(top), &d, &incs, strip, false);
     let line = match r {
         Err(p) => format!("PANIC {}", p),
         Ok(Ok((pt, _))) => {
@@ -216,15 +218,20 @@ fn expect(c: &Case) -> (Vec<String>, String) {
     }
 }
 
-fn run_case(acc: &mut Acc, c: &Case) {
+fn run_case(acc: &mut Acc, c: &Case, strip: bool) {
     let (args, want) = expect(c);
     let exe = std::env::current_exe().expect("exe");
     acc.transitions += 1;
     acc.traces += 1;
     acc.nontrivial += 1;
     let mut cmd = std::process::Command::new(exe);
+    if strip {
+        cmd.env("C09_STRIP", "1");
+    } else {
+        cmd.env_remove("C09_STRIP");
+    }
     cmd.arg("c09child").args(&args).env_remove("RUST_MIN_STACK").stdout(std::process::Stdio::piped()).stderr(std::process::Stdio::piped());
-    let case = json!({"case": format!("{:?}", c), "child_args": args});
+    let case = json!({"case": format!("{:?}", c), "child_args": args, "strip_comments": strip});
     let mut ch = match cmd.spawn() {
         Ok(c) => c,
         Err(e) => panic!("cannot spawn child: {}", e),
@@ -319,10 +326,10 @@ pub fn cases(tier: Tier) -> Vec<Case> {
 
 pub fn build(tier: Tier) -> Check<'static> {
     let mut c = Check::new("C09", tier, "6/C09");
-    c.rule = "macro chains (object-like and function-like) and include chains of every depth in {1,2,3,16,63,64,65,66,70} (quick) / 1..70 (thorough); macro cycles of length 1-4, include cycles 1-3, macro-expands-to-include cycles through 1-3 files; chains preceded by 1..70 (thorough ..130) sibling usages / includes at the same level (macro without text, object-like, function-like, caller-supplied, inside a macro text); grids (include depth x macro depth) and (include depth x length of the macro chain naming the included file); each case in its own process with an 8 MiB main stack and a 20 s cap; non-trivial = every case, distinct by construction".into();
+    c.rule = "macro chains (object-like and function-like) and include chains of every depth in {1,2,3,16,63,64,65,66,70} (quick) / 1..70 (thorough); macro cycles of length 1-4, include cycles 1-3, macro-expands-to-include cycles through 1-3 files; chains preceded by 1..70 (thorough ..130) sibling usages / includes at the same level (macro without text, object-like, function-like, caller-supplied, inside a macro text); grids (include depth x macro depth) and (include depth x length of the macro chain naming the included file); each case with strip_comments off and on, in its own process with an 8 MiB main stack and a 20 s cap; non-trivial = every case, distinct by construction".into();
     c.assumptions = vec!["limit 64 for both recursion kinds as the property states; an include chain beyond the limit is wrapped in 65 Include levels".into()];
     let cs = std::sync::Arc::new(cases(tier));
     let n = cs.len() as u64;
-    c.parts.push(Part::new("depths-and-cycles", n, "all depth / cycle cases", move |i, acc| run_case(acc, &cs[i as usize])));
+    c.parts.push(Part::new("depths-and-cycles", n * 2, "all depth / cycle cases, with strip_comments off and on", move |i, acc| run_case(acc, &cs[(i / 2) as usize], i % 2 == 1)));
     c
 }
